@@ -3,7 +3,7 @@
 // model and spec.  Operation codes are shared with coq/Extract/Dispatch.v.
 //
 // usage: harness <kind-list> <seed> <tier> [budget]
-//   kind-list: comma separated kind numbers (1..12); tier: quick | thorough
+//   kind-list: comma separated kind numbers (1..25); tier: quick | deep | thorough
 // All harness arithmetic is wrapping; panics inside sucds are caught and reported as `P`.
 #![allow(clippy::all)]
 use std::fmt::Write as FmtWrite;
@@ -192,11 +192,12 @@ fn gen_bits(rng: &mut Rng, len: usize, out: &mut Out) -> Vec<bool> {
 //  * `c` consecutive ones, then one more at distance 65534..65537 from the first (c a multiple of 32 makes
 //    the far one a sub-block head), optionally followed by ones that complete the 1024-block;
 //  * a sparse block (1024 ones spread over >= 65536 bits) followed and/or preceded by dense blocks.
-fn gen_block_family(rng: &mut Rng, out: &mut Out) -> Vec<bool> {
+fn gen_block_family(rng: &mut Rng, out: &mut Out) -> (Vec<bool>, Vec<usize>) {
     let mut bits: Vec<bool> = vec![];
+    let mut hot: Vec<usize> = vec![];   // ranks (k of select) of the ones placed at the far end of an exact span
     if rng.chance(1, 2) {
         out.stat("bits:exact-span");
-        let lead = rng.pick(&[0usize, 1, 5, 64, 200]);
+        let lead = rng.pick(&[0usize, 1, 5, 63, 64, 200]);
         bits.extend(std::iter::repeat(false).take(lead));
         if rng.chance(1, 3) {
             // a dense block first
@@ -206,8 +207,10 @@ fn gen_block_family(rng: &mut Rng, out: &mut Out) -> Vec<bool> {
         let first = bits.len();
         let c = rng.pick(&[1usize, 31, 32, 33, 64, 96, 512, 992, 1000, 1023]);
         bits.extend(std::iter::repeat(true).take(c));
-        let d = rng.pick(&[65535usize, 65536, 65536, 65536, 65537, 65534]);
+        let d = rng.pick(&[65535usize, 65535, 65536, 65536, 65536, 65537, 65534]);
         while bits.len() < first + d { bits.push(false); }
+        let before = bits.iter().filter(|&&b| b).count();
+        hot.extend_from_slice(&[before, before.wrapping_sub(1), before + 1, before - c, before - c + 32]);
         bits.push(true);
         match rng.below(4) {
             0 | 1 => {}
@@ -231,7 +234,7 @@ fn gen_block_family(rng: &mut Rng, out: &mut Out) -> Vec<bool> {
             }
         }
     }
-    bits
+    (bits, hot)
 }
 
 fn gen_bits_raw(rng: &mut Rng, len: usize, out: &mut Out) -> Vec<bool> {
@@ -645,6 +648,9 @@ fn bitvec_reads(bv: &BitVector, rng: &mut Rng, out: &mut Out, tier: &str) {
         }
         let (lo, hi) = it.size_hint();
         out.op(42, &[], r_nums(&[lo, hi.unwrap_or(usize::MAX)]), "size_hint");
+        iter_provided(Some(bv.iter()), &|b: bool| format!("b:{}", b as u8), (40, vec![]), 41, n, rng, out);
+        let p = rng.below(n as u64 + 1) as usize;
+        iter_provided(guard(|| bv.unary_iter(p)), &|q: usize| format!("n:{:x}", q), (30, vec![p]), 31, n, rng, out);
     }
     // unary iterator: next-only runs and skip-only runs, from several start offsets <= len
     let mut starts = vec![0usize, n, n / 2, n.saturating_sub(1), n / 64 * 64];
@@ -753,7 +759,7 @@ fn bv_queries<B: Access + Rank + Select + NumBits>(
 
 fn kind_rank9(rng: &mut Rng, out: &mut Out, id: &str, tier: &str) {
     let len = gen_len(rng, tier, usize::MAX);
-    let bits = if rng.chance(1, 10) { gen_block_family(rng, out) } else { gen_bits(rng, len, out) };
+    let bits = if rng.chance(1, 10) { gen_block_family(rng, out).0 } else { gen_bits(rng, len, out) };
     let len = bits.len();
     let ones = bits.iter().filter(|&&b| b).count();
     let (h1, h0) = (rng.chance(1, 2), rng.chance(1, 2));
@@ -787,9 +793,12 @@ fn kind_rank9(rng: &mut Rng, out: &mut Out, id: &str, tier: &str) {
 
 fn kind_darray(rng: &mut Rng, out: &mut Out, id: &str, tier: &str) {
     let len = gen_len(rng, tier, usize::MAX);
+    let mut hot: Vec<usize> = vec![];
+    let mut compl = false;
     let bits = if rng.chance(2, 5) {
-        let mut b = gen_block_family(rng, out);
-        if rng.chance(1, 2) { out.stat("bits:complemented"); b.iter_mut().for_each(|x| *x = !*x); }
+        let (mut b, h) = gen_block_family(rng, out);
+        hot = h;
+        if rng.chance(1, 2) { out.stat("bits:complemented"); compl = true; b.iter_mut().for_each(|x| *x = !*x); }
         b
     } else { gen_bits(rng, len, out) };
     let len = bits.len();
@@ -815,6 +824,10 @@ fn kind_darray(rng: &mut Rng, out: &mut Out, id: &str, tier: &str) {
     if ones > 1024 { out.stat("da:multi-block"); }
     out.op(23, &[], r_num(|| x.num_zeros()), "num_zeros");
     bv_queries(&x, len, ones, rng, out, tier, wr, true, ws0);
+    for &k in &hot {
+        if !compl { out.op(16, &[k], r_optnum(|| x.select1(k)), "select1"); }
+        else if ws0 { out.op(17, &[k], r_optnum(|| x.select0(k)), "select0"); }
+    }
     if len <= 100_000 || (tier == "thorough" || tier == "deep") { ser_ops(&x, rng, out, tier); } else {
         out.op(98, &[], r_num(|| x.size_in_bytes()), "size_in_bytes");
     }
@@ -942,6 +955,10 @@ fn ef_queries(ef: &EliasFano, xs: &[usize], u: usize, rng: &mut Rng, out: &mut O
             }
         }
     }
+    if n <= 2000 {
+        let k = rng.below(n as u64 + 1) as usize;
+        iter_provided(guard(|| ef.iter(k)), &|q: usize| format!("n:{:x}", q), (68, vec![k]), 69, n, rng, out);
+    }
 }
 
 fn gen_universe(rng: &mut Rng, m: usize) -> usize {
@@ -957,15 +974,71 @@ fn gen_universe(rng: &mut Rng, m: usize) -> usize {
     }
 }
 
-fn kind_ef_large(rng: &mut Rng, out: &mut Out, id: &str, tier: &str) {
+// Elias-Fano inputs whose high-bits vector has a 1024-block of ones spanning 65534..=65538 positions: the
+// dense / sparse decision of the DArray index built over it.  The block is the last (partial) one or is followed
+// by dense elements; with `distinct` the values are strictly increasing (positions of set bits).  Returns the low
+// width the tight universe `last + 1` yields, the values and the indices worth probing.
+fn gen_ef_edge(rng: &mut Rng, distinct: bool, out: &mut Out) -> Option<(usize, Vec<usize>, Vec<usize>)> {
+    let l: usize = if distinct { rng.pick(&[1usize, 2, 3]) } else { rng.pick(&[0usize, 0, 1, 3]) };
+    // prefix slope in value space (per element): num/den
+    let (num, den): (usize, usize) = if distinct { (1, 1) } else { rng.pick(&[(0usize, 1usize), (0, 1), (1, 4), (1, 4), (1, 1)]) };
+    let m: usize = match rng.below(6) {
+        0 => 33, 1 => 65, 2 => 1024, 3 => 32 * rng.range(1, 32) as usize + 1, 4 => 32 * rng.range(1, 32) as usize,
+        _ => rng.range(2, 1025) as usize,
+    };
+    let span: usize = 65536 + rng.pick(&[0usize, 0, 0, 1, 2]) - rng.pick(&[0usize, 0, 1, 2]);
+    let tail: usize = rng.pick(&[0usize, 0, 40, 1100]);
+    let skip = rng.below(3);
+    let mut found = 0;
+    for b in 1..400usize {
+        let i0 = b * 1024;
+        let n = i0 + m + tail;
+        let x0 = i0 * num / den;
+        let h0 = x0 >> l;
+        let i_last = i0 + m - 1;
+        let h_last = h0 + span - (m - 1);
+        let x_last = (h_last << l) | (rng.below(1u64 << l) as usize);
+        let x_end = x_last + tail * if distinct { 1 } else { rng.below(2) as usize };
+        let u = x_end + 1;
+        let lw = if u / n == 0 { 0 } else { 63 - ((u / n) as u64).leading_zeros() as usize };
+        if lw != l { continue; }
+        if distinct && x0 + (m - 1) >= x_last { continue; }
+        found += 1;
+        if found <= skip { continue; }
+        let mut xs: Vec<usize> = (0..i0).map(|i| i * num / den).collect();
+        for j in 0..(m - 1) { xs.push(if distinct { x0 + j } else { x0 }); }
+        xs.push(x_last);
+        let step = if tail == 0 { 0 } else { (x_end - x_last) / tail };
+        for t in 1..=tail { xs.push(x_last + t * step); }
+        debug_assert_eq!(xs.len(), n);
+        let mut hot = vec![0, i0.wrapping_sub(1), i0, i0 + 1, i_last.wrapping_sub(1), i_last, i_last + 1, n - 1, n, i0 - 1024, i0 - 32];
+        let mut j = 0;
+        while j < m + tail { hot.push(i0 + j); hot.push(i0 + j + 1); hot.push((i0 + j).wrapping_sub(1)); j += 32; }
+        for _ in 0..6 { hot.push(rng.below(n as u64) as usize); }
+        hot.sort_unstable();
+        hot.dedup();
+        out.stat("ef:edge-span-block");
+        return Some((l, xs, hot));
+    }
+    None
+}
+
+fn kind_ef_large(rng: &mut Rng, out: &mut Out, id: &str, tier: &str, force_edge: bool) {
     // a 1024-block of the high bits spanning >= 65536 positions needs >= ~33k elements and one huge gap
     // (ones), or > 64512 duplicates in one bucket (zeros)
     out.case(id);
-    let dup = tier == "thorough" && rng.chance(1, 4);
-    let n = if dup { rng.range(134_000, 140_000) } else { rng.range(33_000, 40_000) } as usize;
-    let u = if dup { 2 * n + rng.below(1000) as usize } else { 16 * n + rng.below(1000) as usize };
+    let dup = !force_edge && tier == "thorough" && rng.chance(1, 4);
+    let edge = if !dup && (force_edge || rng.chance(2, 3)) { gen_ef_edge(rng, false, out) } else { None };
+    let mut n = if dup { rng.range(134_000, 140_000) } else { rng.range(33_000, 40_000) } as usize;
+    let mut u = if dup { 2 * n + rng.below(1000) as usize } else { 16 * n + rng.below(1000) as usize };
     let mut xs: Vec<usize> = Vec::with_capacity(n);
-    if dup {
+    let mut hot: Vec<usize> = vec![];
+    if let Some((_, e_xs, e_hot)) = edge {
+        n = e_xs.len();
+        u = e_xs[n - 1] + 1;
+        xs = e_xs;
+        hot = e_hot;
+    } else if dup {
         let half = n / 2 + rng.below(100) as usize;
         for _ in 0..half { xs.push(1000); }
         let mut v = 1002;
@@ -980,13 +1053,20 @@ fn kind_ef_large(rng: &mut Rng, out: &mut Out, id: &str, tier: &str) {
     let r = r_unit(|| b.extend(xs.iter().cloned()));
     out.op(51, &[], r, "extend");
     let with_rank = true;
-    let ef = b.build().enable_rank();
+    let ef = match guard(move || b.build().enable_rank()) {
+        None => { out.op(52, &[with_rank as usize], "P".into(), "build"); out.end(); return; }
+        Some(ef) => ef,
+    };
     out.op(52, &[with_rank as usize], "K".into(), "build");
     out.stat("ef:large-sparse-block");
     let r = if (tier == "thorough" || tier == "deep") { 40 } else { 14 };
     out.op(10, &[], r_num(|| ef.len()), "len");
-    for _ in 0..r {
-        let k = rng.below(n as u64) as usize;
+    for &k in &hot {
+        out.op(61, &[k], r_optnum(|| ef.select(k)), "select");
+        out.op(62, &[k], r_optnum(|| ef.delta(k)), "delta");
+    }
+    for i in 0..(r + hot.len().min(24)) {
+        let k = if i < r { rng.below(n as u64) as usize } else { hot[(i - r) * hot.len() / hot.len().min(24)].min(n - 1) };
         out.op(61, &[k], r_optnum(|| ef.select(k)), "select");
         out.op(62, &[k], r_optnum(|| ef.delta(k)), "delta");
         let p = xs[k];
@@ -1002,7 +1082,7 @@ fn kind_ef_large(rng: &mut Rng, out: &mut Out, id: &str, tier: &str) {
 }
 
 fn kind_efb(rng: &mut Rng, out: &mut Out, id: &str, tier: &str) {
-    if rng.chance(1, if (tier == "thorough" || tier == "deep") { 12 } else { 40 }) { return kind_ef_large(rng, out, id, tier); }
+    if rng.chance(1, if (tier == "thorough" || tier == "deep") { 12 } else { 40 }) { return kind_ef_large(rng, out, id, tier, false); }
     out.case(id);
     let m = match rng.below(12) {
         0 => 0,
@@ -1227,6 +1307,9 @@ fn kind_cv(rng: &mut Rng, out: &mut Out, id: &str, tier: &str) {
         }
         let (lo, hi) = it.size_hint();
         out.op(42, &[], r_nums(&[lo, hi.unwrap_or(usize::MAX)]), "size_hint");
+        if all.len() <= 2000 {
+            iter_provided(Some(cv.iter()), &|q: usize| format!("n:{:x}", q), (40, vec![]), 41, all.len(), rng, out);
+        }
     }
     ser_ops(&cv, rng, out, tier);
     out.end();
@@ -1312,6 +1395,59 @@ fn gen_vals(rng: &mut Rng, n: usize, out: &mut Out) -> Vec<usize> {
     v
 }
 
+// provided methods of `Iterator` (nth / count / last) interleaved with next / size_hint on a fresh iterator; the
+// dispatcher executes them with their default-method semantics on top of the model's `next` (op `nx`)
+fn iter_provided<I: Iterator>(it: Option<I>, fmt: &dyn Fn(I::Item) -> String, start: (u32, Vec<usize>), nx: usize, len: usize,
+                              rng: &mut Rng, out: &mut Out) {
+    let mut it = match it {
+        None => { out.op(start.0, &start.1, "P".into(), "iter (provided methods)"); return; }
+        Some(it) => { out.op(start.0, &start.1, "K".into(), "iter (provided methods)"); it }
+    };
+    let mut after = 0;
+    let budget = rng.pick(&[0usize, 1, 3, 8, 40]);
+    let mut steps = 0;
+    while after < 2 && steps < budget {
+        steps += 1;
+        match rng.below(8) {
+            0 | 1 if nx == 41 => {
+                let (lo, hi) = it.size_hint();
+                out.op(42, &[], r_nums(&[lo, hi.unwrap_or(usize::MAX)]), "size_hint");
+            }
+            2 | 3 | 4 => {
+                let n = match rng.below(8) {
+                    0 => 0, 1 => 1, 2 => len, 3 => len + 1, 4 => usize::MAX, 5 => rng.below(len as u64 + 2) as usize,
+                    _ => rng.below(5) as usize,
+                };
+                match guard(AssertUnwindSafe(|| it.nth(n))) {
+                    None => { out.op(43, &[n, nx], "P".into(), "nth"); return; }
+                    Some(None) => { out.op(43, &[n, nx], "-".into(), "nth"); after += 1; }
+                    Some(Some(x)) => out.op(43, &[n, nx], fmt(x), "nth"),
+                }
+            }
+            _ => {
+                match guard(AssertUnwindSafe(|| it.next())) {
+                    None => { out.op(nx as u32, &[], "P".into(), "next"); return; }
+                    Some(None) => { out.op(nx as u32, &[], "-".into(), "next"); after += 1; }
+                    Some(Some(x)) => out.op(nx as u32, &[], fmt(x), "next"),
+                }
+            }
+        }
+    }
+    if nx == 41 {
+        match guard(AssertUnwindSafe(|| it.size_hint())) {
+            None => { out.op(42, &[], "P".into(), "size_hint"); return; }
+            Some((lo, hi)) => out.op(42, &[], r_nums(&[lo, hi.unwrap_or(usize::MAX)]), "size_hint"),
+        }
+    }
+    if rng.chance(1, 2) {
+        let r = guard(AssertUnwindSafe(move || it.count()));
+        out.op(46, &[nx], match r { None => "P".into(), Some(c) => format!("n:{:x}", c) }, "count");
+    } else {
+        let r = guard(AssertUnwindSafe(move || it.last()));
+        out.op(47, &[nx], match r { None => "P".into(), Some(None) => "-".into(), Some(Some(x)) => fmt(x) }, "last");
+    }
+}
+
 fn iter_ops<I: Iterator<Item = usize>>(mut it: I, rng: &mut Rng, out: &mut Out, cap: usize) {
     out.op(40, &[], "K".into(), "iter()");
     let mut after = 0;
@@ -1346,15 +1482,30 @@ fn gen_n(rng: &mut Rng, tier: &str, big: usize) -> usize {
 }
 
 fn kind_dacsopt(rng: &mut Rng, out: &mut Out, id: &str, tier: &str) {
-    let n = gen_n(rng, tier, 5000);
-    let vals = gen_vals(rng, n, out);
-    let (has_ml, ml) = match rng.below(10) {
+    let mut n = gen_n(rng, tier, 5000);
+    let mut vals = gen_vals(rng, n, out);
+    let (mut has_ml, mut ml) = match rng.below(10) {
         0 | 4 | 5 => (false, 0usize),
         1 => (true, rng.pick(&[0usize, 65, 100, usize::MAX])),
         2 => (true, 1),
         3 => (true, 64),
         _ => (true, rng.range(1, 64) as usize),
     };
+    if rng.chance(1, 8) {
+        // one level holding wide values (a level width of 64, 63, 33, 32 bits): few wide values under a limit of one
+        // level, or nothing but wide values
+        out.stat("vals:single-level-wide");
+        let w = rng.pick(&[64u64, 64, 63, 62, 33, 32]);
+        let top = 1u64 << (w - 1);
+        let all_wide = rng.chance(1, 2);
+        n = rng.range(1, 40) as usize;
+        vals = (0..n).map(|i| if i == 0 || all_wide { (top | (rng.next() & (top - 1))) as usize } else { rng.below(8) as usize }).collect();
+        if rng.chance(1, 3) { vals[0] = if w == 64 { usize::MAX } else { ((top << 1) - 1) as usize }; }
+        if n > 1 { let j = rng.below(n as u64) as usize; vals.swap(0, j); }
+        if all_wide && rng.chance(1, 2) { has_ml = false; ml = 0; } else { has_ml = true; ml = 1; }
+    }
+    // the level limit is validated whatever the input: the empty input with an invalid limit in particular
+    if n == 0 && rng.chance(1, 2) { has_ml = true; ml = rng.pick(&[0usize, 65, 100, usize::MAX]); }
     out.case(id);
     out.data(&vals);
     let r = guard(|| DacsOpt::from_slice(&vals, if has_ml { Some(ml) } else { None }));
@@ -1371,7 +1522,7 @@ fn kind_dacsopt(rng: &mut Rng, out: &mut Out, id: &str, tier: &str) {
     for &p in &boundary_args(rng, n, &[], if (tier == "thorough" || tier == "deep") { 40 } else { 12 }) {
         out.op(78, &[p], r_optnum(|| x.access(p)), "access");
     }
-    if n <= 700 { iter_ops(x.iter(), rng, out, n + 5); }
+    if n <= 700 { iter_ops(x.iter(), rng, out, n + 5); iter_provided(Some(x.iter()), &|q: usize| format!("n:{:x}", q), (40, vec![]), 41, n, rng, out); }
     ser_ops(&x, rng, out, tier);
     out.end();
 }
@@ -1394,7 +1545,7 @@ fn kind_dacsbyte(rng: &mut Rng, out: &mut Out, id: &str, tier: &str) {
     for &p in &boundary_args(rng, n, &[], if (tier == "thorough" || tier == "deep") { 40 } else { 12 }) {
         out.op(78, &[p], r_optnum(|| x.access(p)), "access");
     }
-    if n <= 700 { iter_ops(x.iter(), rng, out, n + 5); }
+    if n <= 700 { iter_ops(x.iter(), rng, out, n + 5); iter_provided(Some(x.iter()), &|q: usize| format!("n:{:x}", q), (40, vec![]), 41, n, rng, out); }
     ser_ops(&x, rng, out, tier);
     out.end();
 }
@@ -1432,7 +1583,7 @@ fn kind_psef(rng: &mut Rng, out: &mut Out, id: &str, tier: &str) {
     for &p in &boundary_args(rng, n, &[], if (tier == "thorough" || tier == "deep") { 40 } else { 12 }) {
         out.op(78, &[p], r_optnum(|| x.access(p)), "access");
     }
-    if n <= 700 { iter_ops(x.iter(), rng, out, n + 5); }
+    if n <= 700 { iter_ops(x.iter(), rng, out, n + 5); iter_provided(Some(x.iter()), &|q: usize| format!("n:{:x}", q), (40, vec![]), 41, n, rng, out); }
     ser_ops(&x, rng, out, tier);
     out.end();
 }
@@ -1523,7 +1674,7 @@ where
         let ranges: Vec<std::ops::Range<usize>> = rs.iter().map(|&(a, b)| a..b).collect();
         out.op(88, &[k], r_optnums(|| wm.intersect(&ranges, k)), "intersect");
     }
-    if n <= 300 { iter_ops(wm.iter(), rng, out, n + 5); }
+    if n <= 300 { iter_ops(wm.iter(), rng, out, n + 5); iter_provided(Some(wm.iter()), &|q: usize| format!("n:{:x}", q), (40, vec![]), 41, n, rng, out); }
     ser_ops(&wm, rng, out, tier);
     out.end();
 }
@@ -1551,6 +1702,20 @@ fn kind_wm(rng: &mut Rng, out: &mut Out, id: &str, tier: &str) {
         _ => (0..n).map(|_| rng.below(5) as usize).collect(),
     };
     out.stat(&format!("wm:sigma-class{}", sigma_class));
+    // a constant sequence with a few outliers that differ in one bit, at word-boundary positions: the layer of that
+    // bit consists of words like 1 << 63, 1, !(1 << 63)
+    let vals = if rng.chance(1, 5) && n >= 2 {
+        out.stat("wm:one-bit-outliers");
+        let w = rng.range(1, 8);
+        let c = rng.below(1 << w) as usize;
+        let mut v = vec![c; n];
+        for _ in 0..rng.range(1, 3) {
+            let word = rng.below((n as u64 + 63) / 64) as usize;
+            let p = (word * 64 + rng.pick(&[63usize, 63, 0, 31, 32, 62])).min(n - 1);
+            v[p] = c ^ (1usize << rng.below(w));
+        }
+        v
+    } else { vals };
     match rng.below(3) {
         0 => wm_case::<Rank9Sel>(0, &vals, rng, out, id, tier),
         1 => wm_case::<DArray>(1, &vals, rng, out, id, tier),
@@ -1581,8 +1746,14 @@ fn kind_broadword(rng: &mut Rng, out: &mut Out, id: &str, tier: &str) {
         out.op(91, &[x], r_optnum(|| sucds::broadword::lsb(x)), "lsb");
         out.op(92, &[x], r_optnum(|| sucds::broadword::msb(x)), "msb");
         let pc = x.count_ones() as usize;
-        let ks: Vec<usize> = if i % 7 == 0 { (0..=65).collect() } else {
-            vec![0, pc.wrapping_sub(1), pc, pc + 1, rng.below(65) as usize, 64, 65, 255, 256, usize::MAX, 1usize << 56, (1usize << 56) + 1]
+        // k beyond the popcount must give None whatever its byte lanes look like: sweeps of 0..=65 and 64..=320,
+        // powers of two and their neighbours, values whose low byte alone would be a valid rank
+        let ks: Vec<usize> = if i % 7 == 0 { (0..=65).collect() } else if i % 7 == 3 { (64..=320).collect() } else {
+            let j = rng.below(64);
+            let lowb = rng.below(pc as u64 + 1) as usize;
+            vec![0, pc.wrapping_sub(1), pc, pc + 1, rng.below(65) as usize, 64, 65, 255, 256, usize::MAX, 1usize << 56, (1usize << 56) + 1,
+                 rng.below(512) as usize, 1usize << j, (1usize << j).wrapping_sub(1), (1usize << j) + 1,
+                 (rng.range(1, 1 << 20) as usize) << 8 | lowb, 0x80 | lowb, 0x100 | lowb, (rng.next() as usize) & !0xFF | lowb]
         };
         for &k in &ks {
             out.op(89, &[x, k], r_optnum(|| sucds::broadword::select_in_word(x, k)), "select_in_word");
@@ -2003,6 +2174,64 @@ fn kind_bigvec(rng: &mut Rng, out: &mut Out, id: &str, _tier: &str) {
     out.end();
 }
 
+// kind 24: PrefixSummedEliasFano whose prefix sums are an edge-span Elias-Fano input (see gen_ef_edge)
+fn kind_psef_edge(rng: &mut Rng, out: &mut Out, id: &str, _tier: &str) {
+    let (_, xs, hot) = match gen_ef_edge(rng, false, out) { Some(t) => t, None => return };
+    let n = xs.len();
+    let mut vals: Vec<usize> = Vec::with_capacity(n);
+    let mut prev = 0;
+    for &x in &xs { vals.push(x - prev); prev = x; }
+    out.case(id);
+    out.data(&vals);
+    let r = guard(|| PrefixSummedEliasFano::from_slice(&vals));
+    let x = match r {
+        None => { out.op(1009, &[], "P".into(), "Psef::from_slice"); out.end(); return; }
+        Some(Err(_)) => { out.op(1009, &[], "E".into(), "Psef::from_slice"); out.end(); return; }
+        Some(Ok(x)) => { out.op(1009, &[], "K".into(), "Psef::from_slice"); x }
+    };
+    use sucds::int_vectors::Access as IA;
+    out.op(10, &[], r_num(|| x.len()), "len");
+    out.op(82, &[], r_num(|| x.sum()), "sum");
+    for &p in &hot {
+        out.op(78, &[p], r_optnum(|| x.access(p)), "access");
+    }
+    out.op(98, &[], r_num(|| x.size_in_bytes()), "size_in_bytes");
+    out.end();
+}
+
+// kind 25: SArray over a bit string whose set positions are an edge-span Elias-Fano input
+fn kind_sarray_edge(rng: &mut Rng, out: &mut Out, id: &str, _tier: &str) {
+    let (_, xs, hot) = match gen_ef_edge(rng, true, out) { Some(t) => t, None => return };
+    let n = xs.len();
+    let len = xs[n - 1] + 1;
+    let mut bits = vec![false; len];
+    for &x in &xs { bits[x] = true; }
+    let wr = true;
+    out.case(id);
+    out.data(&words_of(&bits));
+    let built = guard(|| SArray::from_bits(bits.iter().cloned()).enable_rank());
+    let x = match built {
+        Some(x) => x,
+        None => { out.op(1004, &[len, wr as usize], "P".into(), "SArray construction panicked"); out.end(); return; }
+    };
+    out.op(1004, &[len, wr as usize], "K".into(), "SArray (edge-span block)");
+    out.op(10, &[], r_num(|| x.num_bits()), "num_bits");
+    out.op(22, &[], r_num(|| x.num_ones()), "num_ones");
+    for &k in &hot {
+        out.op(16, &[k], r_optnum(|| x.select1(k)), "select1");
+    }
+    for (j, &k) in hot.iter().enumerate() {
+        if j % 3 != 0 || k >= n { continue; }
+        let p = xs[k];
+        out.op(11, &[p], r_optbool(|| x.access(p)), "access");
+        out.op(14, &[p + 1], r_optnum(|| x.rank1(p + 1)), "rank1");
+        out.op(18, &[p], r_optnum(|| x.predecessor1(p)), "predecessor1");
+        out.op(20, &[p.wrapping_sub(1)], r_optnum(|| x.successor1(p.wrapping_sub(1))), "successor1");
+    }
+    out.op(98, &[], r_num(|| x.size_in_bytes()), "size_in_bytes");
+    out.end();
+}
+
 // ------------------------------------------------------------------------------------------
 fn main() {
     // panics inside sucds (under `guard`) are results; anywhere else they are harness errors
@@ -2056,6 +2285,11 @@ fn main() {
                 11 => kind_broadword(&mut rng, &mut out, &id, tier),
                 12 => kind_ef_from_bits(&mut rng, &mut out, &id, tier),
                 13 => kind_bigvec(&mut rng, &mut out, &id, tier),
+                // edge-span Elias-Fano inputs (>= 33k elements each): one case per shard
+                // (the list-based model needs 5..30 s to build one: deep / thorough searches only)
+                23 => if i == 0 && tier != "quick" { kind_ef_large(&mut rng, &mut out, &id, tier, true) },
+                24 => if i == 0 && tier != "quick" { kind_psef_edge(&mut rng, &mut out, &id, tier) },
+                25 => if i == 0 && tier != "quick" { kind_sarray_edge(&mut rng, &mut out, &id, tier) },
                 14 => kind_wrappers(&mut rng, &mut out, &id, tier),
                 _ => panic!("unknown kind"),
             }
